@@ -19,7 +19,7 @@ func init() {
 			"(5) the database-wide transaction lock is released on every exit of Commit/Rollback after the active swap (a leaked lock blocks every later transaction: shared with C04/C17). " +
 			"(6) pairing: in every function of pkg/ a lock acquired on a path is released, or a deferred unlock is registered, before every return that path can reach (hand-over functions listed with their releaser).",
 		NotDecided: "absence of data races in general (needs a happens-before detector over executions), panics from index arithmetic, goroutine leaks, Close concurrent with other calls (out of the property's scope).",
-		Rules:      []func(*Ctx, *Reporter){ruleGuardedBy, ruleAtomicConsistency, ruleReentrancyScope, ruleLockOrder, ruleTxRelease, ruleLockReleasedOnEveryExit},
+		Rules:      []func(*Ctx, *Reporter){ruleGuardedBy, ruleAtomicConsistency, ruleReentrancyScope, ruleLockOrder, ruleTxRelease, ruleLockReleasedOnEveryExit, ruleNoBlockingChanUnderLock},
 	})
 }
 
